@@ -144,13 +144,13 @@ Definition fr_ok2 (h : hdr) (fr : list xnum) (r : num * list num) : Prop :=
   match fr with p :: _ => xle (fqv h r) p = false | [] => True end.
 
 Lemma v2_record_run : forall h left need fr ms r, (left =? 0)%N = false -> need = S (length (snd r)) ->
-  num_ok (fst r) -> Forall num_ok (snd r) -> fr_ok2 h fr r ->
+  num_ok (fst r) -> xlt (n_val (fst r)) xq0 = false -> Forall num_ok (snd r) -> fr_ok2 h fr r ->
   fold_left pstep (wnum (fst r) :: map wnum (snd r) ++ [nl]) (SV2 h (mkv2 left need need [] fr ms)) =
   SV2 h (mkv2 (N.pred left) need need [] (fqv h r :: fr) (bm h r :: ms)).
 Proof.
-  intros h left need fr ms [x xs] Hl Hneed Hx Hxs Hf. cbn [fst snd] in *.
+  intros h left need fr ms [x xs] Hl Hneed Hx Hnn Hxs Hf. cbn [fst snd] in *.
   cbn [fold_left]. rewrite pstep_v2_double by assumption.
-  unfold v2_tok. cbn [d_left d_cur d_togo d_need d_freqs d_mats]. rewrite Hl.
+  unfold v2_tok. cbn [d_left d_cur d_togo d_need d_freqs d_mats]. rewrite Hl. rewrite Hnn.
   assert (E : match fr with prev :: _ => xle (xmul (XQ (h_mult h)) (n_val x)) prev | [] => false end = false)
     by (destruct fr; [reflexivity | exact Hf]).
   rewrite E. change (xmul (XQ (h_mult h)) (n_val x)) with (fqv h (x, xs)).
@@ -186,7 +186,7 @@ Proof.
 Qed.
 
 Definition rec_ok2 (k : nat) (r : num * list num) : Prop :=
-  num_ok (fst r) /\ Forall num_ok (snd r) /\ length (snd r) = k.
+  num_ok (fst r) /\ xlt (n_val (fst r)) xq0 = false /\ Forall num_ok (snd r) /\ length (snd r) = k.
 
 Lemma v2_records_run : forall h need rs k fr ms, Forall (rec_ok2 (need - 1)) rs -> (1 <= need)%nat -> chain2 h fr rs ->
   fold_left pstep (flat_map (fun r => wnum (fst r) :: map wnum (snd r) ++ [nl]) rs)
@@ -195,7 +195,7 @@ Lemma v2_records_run : forall h need rs k fr ms, Forall (rec_ok2 (need - 1)) rs 
 Proof.
   intros h need rs. induction rs as [| r rs IH]; intros k fr ms Hok Hneed Hch.
   - reflexivity.
-  - inversion Hok as [| ? ? (Hx & Hxs & Hlen) Hrs]; subst. destruct Hch as [Hf Hch].
+  - inversion Hok as [| ? ? (Hx & Hnn & Hxs & Hlen) Hrs]; subst. destruct Hch as [Hf Hch].
     cbn [flat_map]. rewrite fold_left_app.
     rewrite v2_record_run; try assumption.
     + replace (N.pred (N.of_nat (length (r :: rs)) + k)) with (N.of_nat (length rs) + k)%N by (cbn [length]; lia).
@@ -293,7 +293,7 @@ Proof.
     f_equal. unfold z0_list, h. cbn [h_v2 h_type h_fmt h_ports h_ref h_z0]. fold (f_n f).
     destruct (f_ref f); reflexivity.
   - rewrite Hneed. cbn [Nat.sub]. rewrite Nat.sub_0_r.
-    eapply Forall_impl'; [| exact Hrec]. intros r (A & B & C). repeat split; assumption.
+    eapply Forall_impl'; [| exact Hrec]. intros r (A & N & B & C). repeat split; assumption.
   - rewrite Hneed. lia.
   - apply chain2_start. exact Hasc.
 Qed.
